@@ -33,7 +33,9 @@ fn gen_matrix(r: &mut Rng) -> Vec<f64> {
     }
 }
 
-pub fn gen_args(r: &mut Rng, sig: &str, special: bool) -> Vec<f64> {
+pub fn gen_args(r: &mut Rng, sig: &str, special: bool) -> Vec<f64> { gen_args_mode(r, sig, special, false) }
+/// tiny = every vector argument scaled far down as a whole (one round in five)
+pub fn gen_args_mode(r: &mut Rng, sig: &str, special: bool, tiny: bool) -> Vec<f64> {
     let mut out = Vec::new();
     let cs: Vec<char> = sig.chars().collect();
     let mut k = 0;
@@ -42,7 +44,14 @@ pub fn gen_args(r: &mut Rng, sig: &str, special: bool) -> Vec<f64> {
         match c {
             '2' | '3' | '4' => {
                 let n = c.to_digit(10).unwrap() as usize;
-                if special { for _ in 0..n { out.push(r.special()); } } else { out.extend(r.distinct(n)); }
+                if special { for _ in 0..n { out.push(r.special()); } }
+                else {
+                    // every 8th vector is scaled far down as a whole (lengths below f64::EPSILON, squares that underflow
+                    // towards subnormals): guards of the form `len < eps` on normalisation show only there
+                    let d = r.distinct(n);
+                    if tiny || r.below(8) == 0 { let sc = *r.pick(&[1e-8, 1e-12, 1e-17, 1e-20, 1e-150]); out.extend(d.iter().map(|v| v * sc)); }
+                    else { out.extend(d); }
+                }
             }
             's' => { let v = if special { r.special() } else { r.cad() }; out.push(v); }
             'i' => {
@@ -101,7 +110,8 @@ pub fn emit(seed: u64, n: usize, lo: i64, hi: i64) {
         for o in ops.iter() {
             if count >= n { break; }
             let special = round % 5 == 4;
-            let args = if o.0 == 109 || o.0 == 116 { gen_lookat(&mut r) } else { gen_args(&mut r, o.2, special) };
+            let tiny = round % 5 == 2;
+            let args = if o.0 == 109 || o.0 == 116 { gen_lookat(&mut r) } else { gen_args_mode(&mut r, o.2, special, tiny) };
             clear_trig();
             let a2 = args.clone();
             let op = o.0;
